@@ -513,7 +513,7 @@ func runC07(c *Ctx) {
 	}
 
 	// ---------------------------------------------------------------- R7
-	c.rule("R7", "bounded deadlines are armed before waiting for the peer; the waiting flag is maintained", 5)
+	c.rule("R7", "bounded deadlines are armed before waiting for the peer; the waiting flag is maintained", 6)
 	deadlineConst := func(v ssa.Value) (string, bool) {
 		// time.Now().Add(D)
 		cl, ok := v.(*ssa.Call)
@@ -581,6 +581,53 @@ func runC07(c *Ctx) {
 			}
 		})
 		c.check(cleared, "waiting-flag-cleared@readLoop", rl.Pos(), "every successful read clears the waiting flag", "the reader never clears the waiting flag: after the first reply no exchange arms the short deadline again and a dead connection is only detected after the idle timeout")
+	}
+	if rl := c.fn(relTransport, "TraditionalDnsConn", "readLoop"); rl != nil {
+		// two writers of the read deadline (exchange: short, reader: idle): the reader must not leave the idle
+		// deadline armed while a reply is awaited — after arming a non-constant (idle) deadline it re-checks
+		// the waiting flag and re-arms the constant short one before it blocks in the read.
+		var idleArms, shortArms []ssa.Instruction
+		var read ssa.Instruction
+		eachInstr(rl, func(in ssa.Instruction) {
+			ci, ok := in.(*ssa.Call)
+			if !ok {
+				return
+			}
+			if ci.Call.IsInvoke() && ci.Call.Method.Name() == "SetReadDeadline" {
+				if _, okD := deadlineConst(ci.Call.Args[0]); okD {
+					shortArms = append(shortArms, in)
+				} else {
+					idleArms = append(idleArms, in)
+				}
+			}
+			if sc := staticCallee(ci); sc != nil && ioFns[sc] {
+				read = in
+			}
+			if isDirectIO(in) {
+				read = in
+			}
+		})
+		for _, ia := range idleArms {
+			good := false
+			for _, sa := range shortArms {
+				if !instrDominates(ia, sa) || read == nil {
+					continue
+				}
+				if _, reaches := reachAvoiding(sa, func(x ssa.Instruction) bool { return x == read }, func(x ssa.Instruction) bool { return x == ia }); !reaches {
+					continue
+				}
+				for _, g := range guardsOfInstr(sa) {
+					v, truth := g.asBool()
+					if cl, ok := v.(*ssa.Call); ok && truth && callName(cl) == "(*sync/atomic.Bool).Load" {
+						if k, _ := fieldKey(cl.Call.Args[0]); k == T+"TraditionalDnsConn.waitingResp" && instrDominates(ia, cl) {
+							good = true
+						}
+					}
+				}
+			}
+			c.check(good, "reader-keeps-short-deadline@readLoop", instrPos(ia), "after arming the idle deadline the reader re-arms the short one when a reply is awaited",
+				"the reader arms the idle deadline without re-checking the waiting flag: when it runs after exchange() armed the 10 s waiting-reply deadline (first query on a new connection) a silent server blocks the query for the whole idle timeout")
+		}
 	}
 	if ex := c.fn(relTransport, "reusableConn", "exchange"); ex != nil {
 		good := false
